@@ -155,7 +155,8 @@ class Gen:
         if k == 1:
             return [com(["/* c%d" % n, self.r.choice(["", " ", "   "]) + "more%d */" % n])]
         if k == 2:
-            return [com(["/* c%d" % n, self.r.choice(["", "  "]) + "mid", "end%d */" % n])]
+            mid = "" if self.r.random() < 0.15 else self.r.choice(["", "  "]) + "mid"      # sometimes an empty line inside the comment
+            return [com(["/* c%d" % n, mid, "end%d */" % n])]
         return [com(["// c%d" % n]), nl()]
 
     def wsp(self):
